@@ -1375,23 +1375,37 @@ async fn transition(
     }
 
     let mut fields = Fields(set_fields);
+    let mut changed = false;
     let outputs = fields.array("outputs")?;
     if !outputs.is_empty() {
-        row.output_keys = outputs.iter().map(endpoint_key).collect();
+        let output_keys: Vec<_> = outputs.iter().map(endpoint_key).collect();
+        changed |= row.outputs != outputs || row.output_keys != output_keys;
+        row.output_keys = output_keys;
         row.outputs = outputs;
     }
     let ended = fields.timestamp("ended_at")?;
     fields.rest("Activity")?;
 
+    changed |= row.status != to;
     row.status = to.clone();
-    if is_terminal(&to) {
+    let ended_at = if is_terminal(&to) {
         // Terminal outputs freeze with the end time, so a transition that
         // forgot to give one still records when the freeze happened.
-        row.ended_at = if ended.is_empty() { at } else { ended };
+        if ended.is_empty() { at } else { ended }
     } else if !ended.is_empty() {
-        row.ended_at = ended;
+        ended
+    } else {
+        row.ended_at.clone()
+    };
+    changed |= row.ended_at != ended_at;
+    row.ended_at = ended_at;
+
+    // A no-effect final state changes nothing (§44), as for every other
+    // clause: a transition to the status the Activity already has, with no
+    // field to set, must not burn a version or emit a change record.
+    if changed {
+        tx.mark_changed(id, "transition");
     }
-    tx.mark_changed(id, "transition");
     Ok(())
 }
 
